@@ -15,8 +15,9 @@ namespace
   // modes: which models a feature carries and with which operation
   // RDOZ / ADDZ: as RDO / ADD, and the composition model lists one more composition with an explicit fraction of 0
   // ('replace defined only' then overwrites that composition with 0, 'add' leaves it as it is)
-  enum Mode { REPLACE, RDO, ADD, SUB, NOMODELS, TONLY, RDOZ, ADDZ, NMODES };
-  const char *MODEN[NMODES] = {"replace", "replace defined only", "add", "subtract", "no models", "temperature model only", "replace defined only + a composition listed with fraction 0", "add + a composition listed with fraction 0"};
+  // CHAIN: two models of each kind inside one feature: [replace, then add 50 K] and [replace the listed compositions, then add 0.125 to one more]
+  enum Mode { REPLACE, RDO, ADD, SUB, NOMODELS, TONLY, RDOZ, ADDZ, CHAIN, NMODES };
+  const char *MODEN[NMODES] = {"replace", "replace defined only", "add", "subtract", "no models", "temperature model only", "replace defined only + a composition listed with fraction 0", "add + a composition listed with fraction 0", "two chained models per kind (replace, then add)"};
   // per template: temperature value, listed compositions + fractions, grains composition
   const double TVAL[NT] = {400, 500, 600, 700, 800, 900};
   const std::vector<unsigned> COMPS[NT] = {{0}, {1}, {0,1}, {1}, {0}, {1}};
@@ -44,10 +45,10 @@ namespace
     std::string models;
     if (m != NOMODELS)
       {
-        models += ",\"temperature models\":[{\"model\":\"uniform\",\"temperature\":" + num(TVAL[t]) + ",\"operation\":\"" + top + "\"}]";
+        models += ",\"temperature models\":[{\"model\":\"uniform\",\"temperature\":" + num(TVAL[t]) + ",\"operation\":\"" + top + "\"}" + (m == CHAIN ? ",{\"model\":\"uniform\",\"temperature\":50,\"operation\":\"add\"}" : "") + "]";
         if (m != TONLY)
           {
-            models += ",\"composition models\":[{\"model\":\"uniform\",\"compositions\":" + ints(comps_of(t, m)) + ",\"fractions\":" + nums(fracs_of(t, m)) + ",\"operation\":\"" + op + "\"}]";
+            models += ",\"composition models\":[{\"model\":\"uniform\",\"compositions\":" + ints(comps_of(t, m)) + ",\"fractions\":" + nums(fracs_of(t, m)) + ",\"operation\":\"" + op + "\"}" + (m == CHAIN ? ",{\"model\":\"uniform\",\"compositions\":[" + std::to_string(ZCOMP[t]) + "],\"fractions\":[0.125],\"operation\":\"add\"}" : "") + "]";
             std::string r = "[[";
             for (int i = 0; i < 3; ++i) r += std::string(i ? "," : "") + "[" + num(ROT[t][3*i]) + "," + num(ROT[t][3*i+1]) + "," + num(ROT[t][3*i+2]) + "]";
             models += ",\"grains models\":[{\"model\":\"uniform\",\"compositions\":[" + std::to_string(GCOMP[t]) + "],\"rotation matrices\":" + r + "]],\"grain sizes\":[" + num(GSIZE[t]) + "]}]";
@@ -140,6 +141,7 @@ namespace
             if (t >= 4) grains_via_line_feature = true;
             if (m == NOMODELS) continue;
             ref[0] = is_add(m) ? ref[0] + TVAL[t] : m == SUB ? ref[0] - TVAL[t] : TVAL[t];
+            if (m == CHAIN) ref[0] += 50;
             if (m == TONLY) continue;
             for (unsigned comp = 0; comp < 3; ++comp)
               {
@@ -153,7 +155,8 @@ namespace
                       const double fr = fl[k];
                       ref[1+comp] = is_add(m) ? ref[1+comp] + fr : m == SUB ? ref[1+comp] - fr : fr;
                     }
-                if (!listed && m == REPLACE) ref[1+comp] = 0.0;
+                if (!listed && (m == REPLACE || m == CHAIN)) ref[1+comp] = 0.0;
+                if (m == CHAIN && comp == ZCOMP[t]) ref[1+comp] += 0.125;
               }
             // grains: request slots 4..23 (composition 0, 2 grains), 24..43 (composition 1, 2 grains)
             const size_t base = 4 + 20*GCOMP[t];
@@ -239,11 +242,11 @@ namespace
   }
 
   // suites: "n1", "n2" full; "n3dev" deviation-bounded modes; "n3full"; "n4dev"
-  Case decode_full(unsigned n, uint64_t idx, bool sph)
+  Case decode_full(unsigned n, uint64_t idx, bool sph, unsigned nmodes = NMODES)
   {
     Case c; c.sph = sph;
     for (unsigned i = 0; i < n; ++i) { c.t.push_back(static_cast<int>(idx % NT)); idx /= NT; }
-    for (unsigned i = 0; i < n; ++i) { c.m.push_back(static_cast<int>(idx % NMODES)); idx /= NMODES; }
+    for (unsigned i = 0; i < n; ++i) { c.m.push_back(static_cast<int>(idx % nmodes)); idx /= nmodes; }
     return c;
   }
   uint64_t ipow(uint64_t b, unsigned e) { uint64_t r = 1; while (e--) r *= b; return r; }
@@ -255,7 +258,7 @@ int main(int argc, char **argv)
   spec.property = "C02";
   spec.level = "exploration";
   spec.rule = "every ordered list (with repetition) of n features drawn from 6 templates (one per feature type, partly overlapping footprints) x every assignment of a mode "
-              "(replace / replace defined only / add / subtract / no models / temperature only / replace defined only resp. add with one more composition listed at fraction 0) within the stated bound; one world per tuple, compared at 49 points with a reference fold "
+              "(replace / replace defined only / add / subtract / no models / temperature only / replace defined only resp. add with one more composition listed at fraction 0 / two chained models per kind) within the stated bound; one world per tuple, compared at 49 points with a reference fold "
               "(membership per feature taken from its single-feature world); non-trivial: at least one point covered by >= 2 features; tuples distinct by construction";
   spec.assumptions = {"uniform models only, so the reference fold is bit-exact (grains painted through slabs/faults compared to 1e-12 because of the quaternion round trip)",
                       "feature membership is taken from the implementation's single-feature world on purpose (geometry is C04/C06)"
@@ -279,10 +282,23 @@ int main(int argc, char **argv)
     if (th)
       {
         Suite a; a.name = "n3";
-        a.n = ipow(NT, 3) * ipow(NMODES, 3);
-        a.run = [](uint64_t i, Ctx &c) { run_case(decode_full(3, i, false), i, c); };
-        a.bound = "all ordered lists of 3 features x all mode assignments (full product), cartesian";
+        a.n = ipow(NT, 3) * ipow(6, 3);
+        a.run = [](uint64_t i, Ctx &c) { run_case(decode_full(3, i, false, 6), i, c); };
+        a.bound = "all ordered lists of 3 features x all assignments of the first six modes (full product), cartesian";
         s.push_back(a);
+        auto devs3 = std::make_shared<std::vector<std::vector<unsigned>>>(deviations(std::vector<uint64_t>(3, NMODES), 2));
+        Suite b; b.name = "n3dev2";
+        b.n = ipow(NT, 3) * devs3->size();
+        b.run = [devs3](uint64_t i, Ctx &c)
+        {
+          Case cs; cs.sph = false;
+          uint64_t j = i;
+          for (unsigned q = 0; q < 3; ++q) { cs.t.push_back(static_cast<int>(j % NT)); j /= NT; }
+          for (unsigned q = 0; q < 3; ++q) cs.m.push_back(static_cast<int>((*devs3)[j][q]));
+          run_case(cs, i, c);
+        };
+        b.bound = "all ordered lists of 3 features x all assignments of the nine modes deviating from all-replace in <= 2 positions";
+        s.push_back(b);
       }
     // deviation-bounded: n = 3 (quick) / n = 4 (thorough) with at most 1 / 2 modes deviating from 'replace'
     {
